@@ -29,6 +29,37 @@ def lattice_obs(lattice, objects, properties):
             'labels': labels, 'len': len(lattice)}
 
 
+def queries_ok(lattice, limit=40):
+    """Self-consistency of the public queries on a (re)loaded lattice: every concept is found again through its
+    extent, intent, minimal generator and first generating sets; joins / meets / traversals answer."""
+    import itertools
+    try:
+        concepts = list(lattice)
+        step = max(1, len(concepts) // limit)
+        sup, inf = lattice.supremum, lattice.infimum
+        for c in concepts[::step]:
+            if lattice[c.extent] is not c and c.extent:
+                return False
+            if lattice(c.intent) is not c:
+                return False
+            if lattice(c.minimal()) is not c:
+                return False
+            for s in itertools.islice(c.attributes(), 4):
+                if lattice(s) is not c:
+                    return False
+            if (c | c) is not c or (c & c) is not c or (c | sup) is not sup or (c & inf) is not inf:
+                return False
+            if lattice.join([c, inf]) is not c or lattice.meet([c, sup]) is not c:
+                return False
+            if next(iter(c.upset())) is not c or next(iter(c.downset())) is not c:
+                return False
+            if not (inf <= c <= sup) or c.incompatible_with(c) != (not c.extent):
+                return False
+        return True
+    except Exception:  # noqa: BLE001
+        return False
+
+
 def observe_reloaded(obj, objects, properties, lattice_object=False, force_lattice=True):
     """obj: a Context (or a Lattice when lattice_object). Returns rows as index sets, whether the names match, whether a
     stored lattice was present, and the lattice observation."""
@@ -42,5 +73,7 @@ def observe_reloaded(obj, objects, properties, lattice_object=False, force_latti
         lattice = ctx.lattice if (stored or force_lattice) else None
     rows = [[i for i, b in enumerate(r) if b] for r in ctx.bools]
     names_ok = list(ctx.objects) == list(objects) and list(ctx.properties) == list(properties)
+    if lattice is not None and not queries_ok(lattice):
+        names_ok = False
     return {'rows': rows, 'names_ok': names_ok, 'stored': stored,
             'lattice': None if lattice is None else lattice_obs(lattice, objects, properties)}
